@@ -424,20 +424,39 @@ Inductive op :=
 | OSelect (largest : bool) (cur tgt : list (N * N)) (cands : list N)
 | OBuildInit (slots count : N).
 
+(* Observed tables are printed compactly: the assignment run-length encoded, and
+   a table relative to the previously observed one as "same" / "these hash slots
+   changed" / complete. *)
+Definition unrle (runs : list (N * N)) : list N :=
+  flat_map (fun r => repeat (fst r) (N.to_nat (snd r))) runs.
+Definition TblR (version count : N) (runs : list (N * N)) (migs : list migration) : table :=
+  Tbl version count (unrle runs) migs.
+Inductive snap :=
+| SSame
+| SDelta (version : N) (changes : list (N * N)) (migs : list migration)
+| SFull (t : table).
+Definition unsnap (prev : table) (s : snap) : table :=
+  match s with
+  | SSame => prev
+  | SDelta v ch migs =>
+      Tbl v (t_count prev) (fold_left (fun a c => set_nth (N.to_nat (fst c)) (snd c) a) ch (t_assign prev)) migs
+  | SFull t => t
+  end.
+
 Inductive res :=
 | RNone
 | RSlot (s : N)
 | RList (l : list N)
 | RList2 (a b : list N)
 | RMig (m : option migration)
-| REnc (data : bytes) (dec : option table)
+| REnc (data : bytes) (dec : option snap)    (* the decoded table, relative to the table that was encoded *)
 | RDecode (ok : bool)
 | RPlan (p : list move)
 | RMap (m : list (N * N))
 | RRanges (r : option (N * list range)).
 
-(* one observed step: operation, its result, and the table afterwards (None = unchanged) *)
-Record step := Step { s_op : op; s_res : res; s_snap : option table }.
+(* one observed step: operation, its result, and the table afterwards *)
+Record step := Step { s_op : op; s_res : res; s_snap : snap }.
 Record c20_case := C20Case { c_count : N; c_phys : Z; c_init : table; c_steps : list step }.
 
 (* ---- equality tests ----------------------------------------------------------- *)
@@ -454,14 +473,14 @@ Definition table_eqb (a b : table) : bool :=
   (t_version a =? t_version b) && (t_count a =? t_count b)
   && nlist_eqb (t_assign a) (t_assign b) && list_eqb mig_eqb (t_migs a) (t_migs b).
 
-Definition res_eqb (a b : res) : bool :=
+Definition res_eqb (prev : table) (a b : res) : bool :=
   match a, b with
   | RNone, RNone => true
   | RSlot x, RSlot y => x =? y
   | RList x, RList y => nlist_eqb x y
   | RList2 x1 x2, RList2 y1 y2 => nlist_eqb x1 y1 && nlist_eqb x2 y2
   | RMig x, RMig y => option_eqb mig_eqb x y
-  | REnc d x, REnc e y => bytes_eqb d e && option_eqb table_eqb x y
+  | REnc d x, REnc e y => bytes_eqb d e && option_eqb table_eqb (option_map (unsnap prev) x) (option_map (unsnap prev) y)
   | RDecode x, RDecode y => Bool.eqb x y
   | RPlan x, RPlan y => list_eqb move_eqb x y
   | RMap x, RMap y => list_eqb pair_eqb x y
@@ -487,7 +506,7 @@ Definition model_step (t : table) (o : op) : res * table :=
   | OAssigned => (RList2 (assigned_slot_ids t) (active_slot_ids t), t)
   | OGetMig hs => (RMig (get_migration t hs), t)
   | OEncDec => let d := decode_hash_slot_table (encode t) in
-               (REnc (encode t) d, match d with Some t' => t' | None => t end)
+               (REnc (encode t) (option_map SFull d), match d with Some t' => t' | None => t end)
   | ODecode data => match decode_hash_slot_table data with
                     | Some t' => (RDecode true, t')
                     | None => (RDecode false, t)
@@ -502,8 +521,7 @@ Definition model_step (t : table) (o : op) : res * table :=
   | OBuildInit slots count => (RRanges (build_initial_hash_slot_table slots count), t)
   end.
 
-Definition after (prev : table) (st : step) : table :=
-  match s_snap st with Some s => s | None => prev end.
+Definition after (prev : table) (st : step) : table := unsnap prev (s_snap st).
 
 (* model vs implementation: the model is run on the operations alone, from
    NewHashSlotTable(count, phys); every result and every table must coincide *)
@@ -513,7 +531,7 @@ Fixpoint mismatch_steps (t : table) (steps : list step) : bool :=
   | st :: r =>
     let '(mres, t') := model_step t (s_op st) in
     let obs := after t st in      (* the implementation's table after the step, given that they agreed before *)
-    if res_eqb mres (s_res st) && table_eqb t' obs then mismatch_steps t' r else true
+    if res_eqb t mres (s_res st) && table_eqb t' obs then mismatch_steps t' r else true
   end.
 
 Definition C20_mismatch (c : c20_case) : bool :=
@@ -620,7 +638,7 @@ Definition step_code (s : table) (st : step) : N :=
   else
     match s_op st, s_res st with
     | ODecode _, RDecode _ => 0
-    | OEncDec, REnc _ (Some d) => if table_eqb d s && table_eqb s' s then 0 else 1
+    | OEncDec, REnc _ (Some d) => if table_eqb (unsnap s d) s && table_eqb s' s then 0 else 1
     | OReassign _ slot, RNone => if basic s s' (negb (slot =? 0)) then 0 else 1
     | OStart _ _ _, RNone | OAdvance _ _, RNone | OFinalize _, RNone | OAbort _, RNone =>
         if basic s s' true then 0 else 1
